@@ -888,7 +888,11 @@ func (self Value) MarshalTo(to *proto.TypeDescriptor, opts *Options) ([]byte, er
 func marshalTo(read *binary.BinaryProtocol, write *binary.BinaryProtocol, from *proto.TypeDescriptor, to *proto.TypeDescriptor, opts *Options, massageLen int) error {
 	tail := read.Read + massageLen
 	for read.Read < tail {
-		fieldNumber, wireType, _, _ := read.ConsumeTag()
+		fieldNumber, wireType, _, tagErr := read.ConsumeTag()
+		if tagErr != nil {
+			// an invalid tag can't be looked up (ConsumeTag answers field number -1 or 0) nor skipped
+			return wrapError(meta.ErrRead, "", tagErr)
+		}
 		fromField := from.Message().ByNumber(fieldNumber)
 
 		if fromField == nil {
